@@ -381,6 +381,45 @@ def g_bcast(env, v, n):
     return {"result": [q + v[3] + v[4] for q in X]}
 
 
+def g_bcast_late(env, v, n):
+    """n scattered elements (tags 0.i, injected directly) joined (dot product) with a non-scattered
+    input y (tag 0) that reaches the combinator LATE: it first passes two identity transformers, so
+    one arrival at the combinator completes several combinations at once."""
+    Status, Token, Transformer, ListToken, TerminationToken = _imports()
+    from streamflow.workflow.combinator import DotProductCombinator
+    from streamflow.workflow.step import CombinatorStep, GatherStep
+
+    wf = env.wf
+    ex, py, y1, y2, cx, cy, ps, psize, pout = (wf.create_port(name=q) for q in ("ex", "y", "y1", "y2", "cx", "cy", "s", "size", "out"))
+    d1 = _mk_transformer(env, "/d1", lambda a: a, ["a"])
+    d1.add_input_port("a", py)
+    d1.add_output_port("out", y1)
+    d2 = _mk_transformer(env, "/d2", lambda a: a, ["a"])
+    d2.add_input_port("a", y1)
+    d2.add_output_port("out", y2)
+    comb = DotProductCombinator(name="dot", workflow=wf)
+    for it in ("x", "y"):
+        comb.add_item(it)
+    cs = wf.create_step(cls=CombinatorStep, name="/comb", combinator=comb)
+    cs.add_input_port("x", ex)
+    cs.add_input_port("y", y2)
+    cs.add_output_port("x", cx)
+    cs.add_output_port("y", cy)
+    t = _mk_transformer(env, "/sum", lambda a, b: a + b, ["x", "y"])
+    t.add_input_port("x", cx)
+    t.add_input_port("y", cy)
+    t.add_output_port("out", ps)
+    ga = wf.create_step(cls=GatherStep, name="/ga", size_port=psize)
+    ga.add_input_port("x", ps)
+    ga.add_output_port("x", pout)
+    wf.output_ports["result"] = pout.name
+    X = [v[i] for i in range(n)]
+    env.inputs.append((ex, [Token(value=X[i], tag="0." + str(i)) for i in range(n)]))
+    env.inputs.append((py, [Token(value=v[3], tag="0")]))
+    env.inputs.append((psize, [Token(value=n, tag="0")]))
+    return {"result": [q + v[3] for q in X]}
+
+
 # ---------------------------------------------------------------- driver
 
 
